@@ -10,6 +10,7 @@ import numpy as np
 from photon_weave._math.ops import apply_kraus, kraus_identity_check
 from photon_weave.photon_weave import Config
 from photon_weave.state.expansion_levels import ExpansionLevel
+from photon_weave._verif import announce as _verif_announce
 
 if TYPE_CHECKING:
     from photon_weave.state.composite_envelope import CompositeEnvelope
@@ -316,6 +317,7 @@ class BaseState(ABC):
 
         # Generate a random key
         C = Config()
+        _verif_announce("povm", self)
         key = C.random_key
 
         # Sample the measurement outcome
